@@ -1,0 +1,151 @@
+//! Verification hooks (only compiled with `--cfg resolvo_verif`).
+//!
+//! The solver reports its internal steps (variable allocation, clause
+//! addition, assignments, undo, learnt clauses, final conflict) to a
+//! thread-local sink that is disabled unless a harness calls [`start`]. Every
+//! event is emitted after the state change it reports. Nothing in here
+//! influences the solver.
+#![allow(missing_docs)]
+
+use std::cell::{Cell, RefCell};
+
+/// A literal: (variable index, positive?)
+pub type Lit = (u32, bool);
+
+#[derive(Debug, Clone, Copy, PartialEq, Eq)]
+pub enum Tag {
+    /// Implied by the reason clause (propagation, assertion, learnt unit).
+    Implied,
+    /// `run_sat` installing its target (root or a soft requirement).
+    Install,
+    /// A decision made by `decide`.
+    Decide,
+    /// A soft requirement that could not be installed is set to false.
+    SoftFalse,
+}
+
+#[derive(Debug, Clone)]
+pub enum ClauseKind {
+    Root,
+    /// parent variable, version sets of the requirement (in order), and per
+    /// version set the candidate variables.
+    Requires {
+        parent: u32,
+        version_sets: Vec<u32>,
+        candidates: Vec<Vec<u32>>,
+    },
+    Constrains {
+        parent: u32,
+        forbidden: u32,
+        version_set: u32,
+    },
+    Forbid {
+        var: u32,
+        helper: Lit,
+        name: u32,
+    },
+    Lock {
+        locked: u32,
+        other: u32,
+    },
+    Excluded {
+        var: u32,
+    },
+}
+
+#[derive(Debug, Clone)]
+pub enum Event {
+    Var {
+        var: u32,
+        solvable: Option<u32>,
+        name: Option<u32>,
+    },
+    Clause {
+        id: u32,
+        kind: ClauseKind,
+        lits: Vec<Lit>,
+    },
+    Learnt {
+        id: u32,
+        lits: Vec<Lit>,
+        why: Vec<u32>,
+        backtrack_to: u32,
+    },
+    Assign {
+        var: u32,
+        value: bool,
+        level: u32,
+        why: u32,
+        tag: Tag,
+    },
+    Undo {
+        len: u32,
+    },
+    RunSat {
+        target: Option<u32>,
+        starting_level: u32,
+    },
+    Restart {
+        starting_level: u32,
+    },
+    Unsat {
+        ids: Vec<u32>,
+    },
+}
+
+thread_local! {
+    static SINK: RefCell<Option<Vec<Event>>> = const { RefCell::new(None) };
+    static NEXT_TAG: Cell<Tag> = const { Cell::new(Tag::Implied) };
+}
+
+/// Start recording on this thread (drops anything recorded before).
+pub fn start() {
+    SINK.with(|s| *s.borrow_mut() = Some(Vec::new()));
+    NEXT_TAG.with(|t| t.set(Tag::Implied));
+}
+
+/// Stop recording and return what was recorded.
+pub fn take() -> Vec<Event> {
+    SINK.with(|s| s.borrow_mut().take().unwrap_or_default())
+}
+
+/// Returns and removes the events recorded so far, keeps recording.
+pub fn drain() -> Vec<Event> {
+    SINK.with(|s| {
+        s.borrow_mut()
+            .as_mut()
+            .map(std::mem::take)
+            .unwrap_or_default()
+    })
+}
+
+pub fn enabled() -> bool {
+    SINK.with(|s| s.borrow().is_some())
+}
+
+pub(crate) fn emit(f: impl FnOnce() -> Event) {
+    SINK.with(|s| {
+        if let Some(v) = s.borrow_mut().as_mut() {
+            v.push(f());
+        }
+    })
+}
+
+pub(crate) fn emit_opt(f: impl FnOnce() -> Option<Event>) {
+    SINK.with(|s| {
+        if let Some(v) = s.borrow_mut().as_mut() {
+            if let Some(e) = f() {
+                v.push(e);
+            }
+        }
+    })
+}
+
+/// Set the tag of the next `Assign` event.
+pub(crate) fn tag(tag: Tag) {
+    NEXT_TAG.with(|t| t.set(tag));
+}
+
+pub(crate) fn take_tag() -> Tag {
+    NEXT_TAG.with(|t| t.replace(Tag::Implied))
+}
